@@ -2,6 +2,7 @@
    creation bursts, each burst read as one batch -/
 import WD.Proofs.Pipeline.BurstGrow
 import WD.Proofs.Pipeline.BurstFiles
+import WD.Proofs.Pipeline.BurstMkRename
 import WD.Proofs.Pipeline.ReplayRun
 set_option linter.unusedSimpArgs false
 namespace WD.Pipe
@@ -33,7 +34,9 @@ theorem allFile_no_root (ops : List Op) : ∀ s : Sys, allFile s ops = true → 
 
 /-- the three kinds of burst the theorems cover -/
 def okBurst (s : Sys) (b : List Op) : Prop :=
-  allFile s b = true ∨ allGrow s.fs b = true ∨ ∃ op, b = [op] ∧ validOp s.fs op = true ∧ op ≠ .rmdir ["W"]
+  allFile s b = true ∨ allGrow s.fs b = true ∨ (∃ op, b = [op] ∧ validOp s.fs op = true ∧ op ≠ .rmdir ["W"]) ∨
+  (∃ p q, b = [.mkdir p, .rename p q] ∧ validOp s.fs (.mkdir p) = true ∧ 2 ≤ q.length ∧ s.fs.exists q = false ∧ p ≠ q ∧
+    s.fs.isDir (parentOf q) = true ∧ watchedDir s.fs true (parentOf p) = true ∧ watchedDir s.fs true (parentOf q) = true)
 
 def pacedOK (s : Sys) : List (List Op) → Prop
   | [] => True
@@ -58,11 +61,13 @@ theorem paced_step (s : Sys) (b : List Op) (inv : InvRec s.fs s.k s.lib) (hs : s
     simp only
     rw [r1, run_fs]
     exact replay_run inv.wf s.full b (by rw [← allValid_eq_fsValid]; exact hv) hroot
-  rcases hok with h | h | ⟨op, rfl, hv, hne⟩
+  rcases hok with h | h | ⟨op, rfl, hv, hne⟩ | ⟨p, q, rfl, h1, h2, h3, h4, h5, h6, h7⟩
   · exact drained (burst_files s b inv hs hc h) (allValid_of_allFile b s h) (allFile_no_root b s h)
   · obtain ⟨h1, h2, h3, h4, h5, _⟩ := burst_grow s b inv hs hc h
     exact ⟨h4, h2, h3, by rw [h1]; exact h5⟩
   · exact drained (burst_single s op) (by simp [allValid, hv]) (by simpa using fun h => hne h.symm)
+  · obtain ⟨_, _, a3, a4, a5⟩ := burst_mkdir_rename s p q inv hs hc h1 h2 h3 h4 h5 h6 h7
+    exact ⟨a5, a3, a4, (burst_mkdir_rename_replay s p q inv hs hc h1 h2 h3 h4 h5 h6 h7).2⟩
 
 /-- **paced histories**: any sequence of bursts - single (drained) operations of every kind, bursts of file operations,
     nested creation bursts - each read as one batch: the reader never crashes, the emitter keeps running, the invariant
@@ -103,13 +108,20 @@ theorem allFile_of_check (s : Sys) (ops : List Op) (h : allFileB s ops = true) :
 
 theorem okBurst_of_check (s : Sys) (b : List Op) (h : okBurstB s b = true) : okBurst s b := by
   simp only [okBurstB, Bool.or_eq_true] at h
-  rcases h with (h | h) | h
+  rcases h with ((h | h) | h) | h
   · exact Or.inl (allFile_of_check s b h)
   · exact Or.inr (Or.inl (allGrow_of_check s b h))
+  · unfold mkRenameB at h
+    split at h
+    · next p p' q =>
+      simp only [Bool.and_eq_true, beq_iff_eq, decide_eq_true_eq, Bool.not_eq_true', bne_iff_ne, ne_eq] at h
+      obtain ⟨⟨⟨⟨⟨⟨⟨rfl, a1⟩, a2⟩, a3⟩, a4⟩, a5⟩, a6⟩, a7⟩ := h
+      exact Or.inr (Or.inr (Or.inr ⟨p, q, rfl, a1, a2, a3, a4, a5, a6, a7⟩))
+    · cases h
   · match b, h with
     | [op], h =>
       simp only [Bool.and_eq_true, bne_iff_ne, ne_eq] at h
-      exact Or.inr (Or.inr ⟨op, rfl, h.1, h.2⟩)
+      exact Or.inr (Or.inr (Or.inl ⟨op, rfl, h.1, h.2⟩))
 
 theorem pacedOK_of_check (bs : List (List Op)) : ∀ s : Sys, pacedOKB s bs = true → pacedOK s bs := by
   induction bs with
